@@ -163,7 +163,7 @@ async def run_history(ctx, case):
         ctx.count("cross_parser_calls")
         out = capture(PARSERS[other], s)
         log.append(f"cross#{i}({why})")
-        what = "tree" if out[0] == "ok" else type(out[1]).__name__
+        what = "tree" if out[0] == "ok" else ("SyntaxError" if isinstance(out[1], SyntaxError) else type(out[1]).__name__)  # subclasses are as good
         if i not in cross_first:
             cross_first[i] = what
         if what != cross_first[i] or what != "SyntaxError":
